@@ -13,7 +13,8 @@ from ..engine import Outcome, Part, Prop
 from . import common
 
 NAMES = [None, None, 'worker', 'pool-1', 'ignored-a', 'ignored-b', 'Dummy-x', 'bg thread']
-IGNORE = [[], [], ['ignored-'], ['ignored-a$', 'pool'], ['.*'], ['Dummy-'], ['Thread-\\d+'], ['xyz']]
+IGNORE = [[], [], ['ignored-'], ['ignored-a$', 'pool'], ['.*'], ['Dummy-'], ['Thread-\\d+'], ['xyz'],
+          ['orker', '-1$'], ['thread', '\\d'], ['-b', 'ummy'], ['WORKER', 'ignored$']]   # documented: *match* mode
 
 RE_THREAD = re.compile(r'<Thread\((.*?), started (?:daemon )?(\d+)\)>')
 RE_DUMMY = re.compile(r'DummyThread (\d+), started, daemon')
